@@ -124,6 +124,9 @@ COMPOUNDS = {
     "Date": ["Date(2000, 1, 2)", "Date(1999, 12, 31)"],
     "Datetime": ["datetime(86400.5)", "Datetime(Date(2001, 2, 3), 4, 5, 6.5)"],
     "JSON": ["json(1)", 'json("s")', "json([json(true)])"],
+    "Regex": ['regex("a+")', 'regex("(b)|(?P<n>c)")'],
+    "Match": ['regex("(a+)(?P<n>b)?").search("xaab").value()', 'regex("(b)|(?P<n>é)").search("aé").value()'],
+    "LinearRegression": ["LinearRegression(2.0, 1.0)", "LinearRegression(0.0, 0.0)"],
 }
 
 
